@@ -16,7 +16,7 @@ LEVEL = "exploration"
 SHARDS = {"quick": 8, "thorough": 16}
 RULE = ("model-based histories against a model V3 device (configuration: max connection lifetime in {None, 30 s, 600 s}); events "
         "from {send, send with the device silent, send answered by an error packet, send during which the peer closes, next "
-        "connect refused, explicit authenticate with good credentials / bad token / bad key, sleep past 12 h, sleep past the "
+        "connect refused, explicit authenticate with good credentials / bad token / bad key / while the device ignores handshakes, a send whose handshake reply arrives damaged, sleep past 12 h, sleep past the "
         "connection lifetime, short sleep, cancel the running send/authenticate at a protocol phase}; up to 30 (quick) / 60 "
         "(thorough) events. A monitor parses every byte the device receives on every connection with the reference codec: (1) "
         "before the first genuinely answered handshake on a connection only handshake requests carrying the token configured "
@@ -27,7 +27,8 @@ RULE = ("model-based histories against a model V3 device (configuration: max con
         "connection or (when configured) more than the lifetime after its connection was opened (slack: one exchange). Long "
         "sessions: >= 4200 (quick) / 66000 (thorough) exchanges on one connection and 70000 protocol-level writes. "
         "Non-trivial: the history contains a fault or expiry followed by a successful data exchange. Distinct by (config, events).")
-ASSUMPTIONS = ["lifetime is configuration (set before the first connect)", "'silent' means never answered; late answers are C08's domain",
+ASSUMPTIONS = ["every history starts with an explicit authenticate call (successful or not): that call is what marks the device as V3 for the library",
+               "lifetime is configuration (set before the first connect)", "'silent' means never answered; late answers are C08's domain",
                "expiry is one-directional: re-handshaking earlier than required is not a violation"]
 
 TOKEN = hashlib.sha512(b"c07 token").digest()
@@ -53,7 +54,8 @@ def monitor(dev, hs_notes: dict, lifetime, uncompletable: set):
             continue
         if e.kind == "hs_reply":
             st_["answered"] = True
-            st_["last_hs"] = e.t
+            if (e.conn, st_["gens"]) not in uncompletable:
+                st_["last_hs"] = e.t          # only a handshake the client could complete renews the 12 h lifetime
             st_["gens"] += 1
             continue
         # counters (handshake requests and data packets)
@@ -95,6 +97,8 @@ def monitor(dev, hs_notes: dict, lifetime, uncompletable: set):
                     stale += 1
                 else:
                     return ("key/stale", f"connection {e.conn}: data under session key #{e.key_gen} although handshake #{st_['gens'] - 1} completed")
+            if st_["last_hs"] is None:
+                return ("before-handshake/data", f"connection {e.conn}: data although no handshake on it could be completed by the client")
             if e.t - st_["last_hs"] > H12 + SLACK:
                 return ("expiry/12h", f"data packet {e.t - st_['last_hs']:.0f} s after the last handshake of its connection")
             if lifetime is not None and e.t - st_["opened"] > lifetime + SLACK:
@@ -133,6 +137,20 @@ def check_history(case: dict):
         def hs(conn, p):
             hs_notes[len(dev.log) - 1] = (bytes(p.payload) == mode["expect"])
             before = len(conn.session_keys)
+            if mode.get("hs_silent"):
+                return
+            if mode.get("garble"):
+                # the device's reply is damaged on the way (one bit): the client must reject it
+                mode["garble"] = False
+                saved = dev.default_hs_action
+                dev.default_hs_action = ("genuine", {"mutate": lambda body: bytes([body[0] ^ 0x10]) + body[1:]})
+                try:
+                    orig_hs(conn, p)
+                finally:
+                    dev.default_hs_action = saved
+                if len(conn.session_keys) > before:
+                    uncompletable.add((conn.id, len(conn.session_keys) - 1))
+                return
             orig_hs(conn, p)
             if mode.get("badkey") and len(conn.session_keys) > before:
                 uncompletable.add((conn.id, len(conn.session_keys) - 1))
@@ -146,11 +164,8 @@ def check_history(case: dict):
         first = True
         for ev in events:
             k = ev[0]
-            mode.update(kind=None, expect=TOKEN, badkey=False)
+            mode.update(kind=None, expect=TOKEN, badkey=False, hs_silent=False, garble=False)
             try:
-                if first and k != "auth_good":
-                    # the object needs credentials once (as after discovery / user configuration)
-                    await ac.authenticate(TOKEN, KEY)
                 first = False
                 if k == "send":
                     r = await lan.send(FRAME)
@@ -175,6 +190,15 @@ def check_history(case: dict):
                     mode["badkey"] = True
                     faulted = True
                     await ac.authenticate(TOKEN, BAD_KEY)
+                elif k == "auth_silent":
+                    mode["hs_silent"] = True
+                    faulted = True
+                    await ac.authenticate(TOKEN, KEY)
+                elif k == "send_garbled_hs":
+                    # the next handshake reply (if this send needs one) arrives damaged
+                    mode["garble"] = True
+                    faulted = True
+                    await lan.send(FRAME)
                 elif k == "sleep_12h":
                     faulted = True
                     await asyncio.sleep(H12 + 60 + ev[1])
@@ -199,7 +223,7 @@ def check_history(case: dict):
                 pass
             finally:
                 dev.connect_script.clear()
-        mode.update(kind=None, expect=TOKEN, badkey=False)
+        mode.update(kind=None, expect=TOKEN, badkey=False, hs_silent=False, garble=False)
         out["monitor"] = monitor(dev, hs_notes, lifetime, uncompletable)
         out["n_data"] = sum(1 for e in dev.log if e.kind == "data")
         out["n_conn"] = len(dev.conns)
@@ -319,12 +343,17 @@ def events(max_len: int):
     phases = [0.02, 0.5, 1.07, 2.5, 3.6]
     ev = st.one_of(
         st.just(["send"]), st.just(["send"]), st.just(["send"]), st.just(["send_silent"]), st.just(["send_error"]), st.just(["send_close"]),
-        st.just(["refuse"]), st.just(["auth_good"]), st.just(["auth_bad_token"]), st.just(["auth_bad_key"]),
+        st.just(["refuse"]), st.just(["auth_good"]), st.just(["auth_bad_token"]), st.just(["auth_bad_key"]), st.just(["auth_silent"]), st.just(["send_garbled_hs"]),
         st.integers(0, 100).map(lambda x: ["sleep_12h", x]), st.integers(0, 100).map(lambda x: ["sleep_life", x]),
         st.sampled_from([0.01, 0.5, 3.0, 29.0, 31.0, 599.0, 3600.0]).map(lambda x: ["sleep", x]),
         st.tuples(st.sampled_from(phases), st.sampled_from([0.0, 0.01, -0.01]), st.sampled_from(["send", "send", "auth"])).map(lambda t: ["cancel", round(t[0] + t[1], 3), t[2]]),
     )
-    return st.lists(ev, min_size=1, max_size=max_len)
+    body = st.lists(ev, min_size=1, max_size=max_len)
+    # most histories start with a successful explicit authentication (the object needs credentials once); the rest start cold
+    # every history starts with an explicit authentication attempt: that call is what tells the library the device is V3
+    first = st.sampled_from([["auth_good"], ["auth_good"], ["auth_good"], ["auth_good"], ["auth_silent"], ["auth_bad_token"], ["auth_bad_key"],
+                             ["cancel", 0.02, "auth"], ["cancel", 0.5, "auth"]])
+    return st.tuples(first, body).map(lambda t: [t[0]] + t[1])
 
 
 def run(ctx) -> None:
@@ -338,7 +367,11 @@ def run(ctx) -> None:
     for lifetime in (None, 30, 600):
         for prefix in (["send"], ["send", "send_silent"], ["send", "auth_bad_key", "send"], ["send", "send_error"], ["send", "send_close"]):
             for tail in (["sleep_12h", 0], ["sleep_life", 0], ["sleep", 29.0], ["sleep", 31.0]):
-                scripts.append({"config": {"lifetime": lifetime}, "events": [[p] for p in prefix] + [tail, ["send"], ["send"]]})
+                scripts.append({"config": {"lifetime": lifetime}, "events": [["auth_good"]] + [[p] for p in prefix] + [tail, ["send"], ["send"]]})
+                scripts.append({"config": {"lifetime": lifetime}, "events": [["auth_good"]] + [[p] for p in prefix] + [tail, ["auth_bad_key"], ["send"], ["send"]]})
+                scripts.append({"config": {"lifetime": lifetime}, "events": [["auth_good"]] + [[p] for p in prefix] + [tail, ["send_garbled_hs"], ["send"]]})
+        for first_ev in (["auth_silent"], ["cancel", 0.02, "auth"], ["cancel", 0.5, "auth"], ["auth_bad_token"], ["auth_bad_key"]):
+            scripts.append({"config": {"lifetime": lifetime}, "events": [first_ev, ["send"], ["auth_good"], ["send"]]})
     for i, case in enumerate(scripts):
         if ctx.mine(i + 2):
             ctx.check(case, lambda c: _run_one(ctx, c))
